@@ -394,9 +394,12 @@ def render(spec, *, state_factory=None):
             for k in sc[1]:
                 getattr(tlists[k], c["group"])(fn)
 
-    def __init__(self, Hh, **kw):
-        self.H = Hh
-        StateMachine.__init__(self, **kw)
+    def __init__(self, Hh=None, *args, **kw):
+        if isinstance(Hh, H):
+            self.H = Hh
+            StateMachine.__init__(self, *args, **kw)
+        else:  # standard signature (MachineMixin passes the model first); the recorder is then a class attribute
+            StateMachine.__init__(self, Hh, *args, **kw)
 
     ns["__init__"] = __init__
     ns.update(prov_ns.pop("machine", {}))
